@@ -21,7 +21,7 @@ import torch
 
 from vk.harness import ObResult
 
-BIT_DTYPES = (torch.int64, torch.int32, torch.uint8, torch.bool, torch.float64, torch.float16)
+BIT_DTYPES = (torch.int64, torch.int32, torch.uint8, torch.bool, torch.float64, torch.float16, "strided_view")
 REAL_DTYPES = (torch.float64,)
 REJECT = (TypeError, RuntimeError, ValueError, NotImplementedError, IndexError)
 
@@ -53,11 +53,27 @@ def same(a, b, rtol=1e-4, atol=1e-5):
     return True, ""
 
 
+STRIDED = "strided_view"  # pseudo-carrier: the same values handed over as a non-contiguous view (every second element of a buffer)
+
+
+def strided_view(x):
+    if not isinstance(x, torch.Tensor) or x.dim() == 0:
+        return x
+    big = torch.zeros(*x.shape[:-1], 2 * x.shape[-1], dtype=x.dtype)
+    big[..., 1::2] = 7  # what sits between the samples must never be read
+    big[..., ::2] = x
+    v = big[..., ::2]
+    assert not v.is_contiguous() or x.shape[-1] <= 1
+    return v
+
+
 def cast(x, dt):
     if isinstance(x, (tuple, list)):
         return type(x)(cast(v, dt) for v in x)
     if not isinstance(x, torch.Tensor):
         return x
+    if dt == STRIDED:
+        return strided_view(x)
     if x.is_complex():
         return x.to(torch.complex128 if dt == torch.float64 else x.dtype)
     return x.to(dt)
